@@ -6,6 +6,25 @@ ROOT = os.path.dirname(os.path.dirname(os.path.abspath(__file__)))
 
 # id -> (technique, level text, level note, design section)
 CLAIMED = {
+    "C01": (
+        "seeded proptest over read sets x configurations against a string-level k-mer table model",
+        "Generated search over read sets (repeats, palindromes, hairpins, tandem repeats, homopolymers), all 18 k-mer types with K>=4, both strandedness modes, thresholds, the three construction entry points and shard tables; "
+        "oracle is an independent string-level table: partition (each key exactly once, nothing foreign), step validity on both k-mers, payload = fold over exactly the node's k-mers (commutative (count,xor-hash,n) payload makes a lost/duplicated k-mer visible).",
+        "Trusted: harness/src/model (table construction), pipeline::check_lossless. Sizes are bounded (<= 24 reads of <= ~6K+40 bases).",
+        "DESIGN.md section 6, C01",
+    ),
+    "C02": (
+        "seeded proptest; independent union-find over compressible links of the string-level bidirected k-mer graph",
+        "The node partition must EQUAL the connected components of compressible links computed by an independent union-find (both directions: no under-merging, no over-merging); always-true and colour-equality join predicates; crate's is_compressed never consulted.",
+        "Trusted: model::expected_partition (definition of a compressible link), model::prune_exts. Tables are read-derived, hence consistent.",
+        "DESIGN.md section 6, C02",
+    ),
+    "C03": (
+        "seeded proptest over graphs x probes against a string-level adjacency model",
+        "Every node x side x base is resolved through find_link/edges and compared with the set of acceptable answers derived from node sequences; (K+1)-mer set equality with the reads; symmetry; bit-exact pruning (k-mer level, sharded and unsharded, and node level under random bitsets); walks, max_path and max_path_beam spelled against the model.",
+        "Trusted: gmodel::GModel (acceptable-answer sets, spelling), model::neighbour. max_path_beam is only required to return a valid walk (it may end on a repeated node by design).",
+        "DESIGN.md section 6, C03",
+    ),
     "C07": (
         "seeded proptest, validity-predicate oracle over plain strings",
         "Generated search (sequences x k x p-mer type x score function x container) against an interval validity predicate "
